@@ -1008,7 +1008,7 @@ def ref_decode(body):
 def ob_literals(n):
     """string literal bodies in the program TEXT are symbolic: escapes are decoded in '...' / f'...' and not in '''...''' / f'''...'''"""
     def h():
-        body = sym_str(n, 'body', alphabet="a\\n'07")
+        body = sym_str(n, 'body', 32, 126)        # every printable ASCII character: only the escapes Syntax.md lists are decoded, "unrecognized escape sequences are left in the string unchanged"
         multi = choose(2, 'triple')
         fp = ['', 'f'][choose(2, 'fstring')]       # an f-string without @name@ denotes the same string: the prefix must not change escape handling
         if multi:
